@@ -312,6 +312,8 @@ claim("C06",
 
 # clauses added after the independent seeded changes (DESIGN §8); appended to the level text
 EXTRA = {
+ "C12": " Round 2: the equity trie root has a closed writer set and its raw setter is reached only from the EquityRootLog's redo/undo.",
+ "C08": " Round 2: an accepted recovery scan returns the scan cursor, not the file size; RunContext.Flush reports success only after the file was replaced, or skips under a dirty flag that every writer of the candidate cache raises; every insert into the pending-write index counts the pending writes of its key.",
  "C06": " Round 2: SetSingers installs a freshly built list; signing hashes read fields directly or through faithful accessors.",
  "C05": " Round 2: the journal clauses of C07 and the sandbox clauses of C16 are evaluated under C05 as well.",
  "C04": " Round 2: the identity memo (Transaction.hash) is filled only by Hash from rlpHash of the receiver, reset on whole-struct copies, and its address goes nowhere else; every TxTracer.DelTrace argument derives from a TimeBuckets.Expire result, interprocedurally through helper parameters.",
@@ -319,9 +321,9 @@ EXTRA = {
  "C02": " Also: after a restart the replay guard is refilled over the window measured from the stable block's time (not the wall clock). Round 2: Seal fills a copy of the header; the C04 clauses are evaluated under C02 as well.",
  "C03": " Also: every advance of the stable root prunes from the root that was stable immediately before that step. Round 2: snapshot votes, confirm counting and the two-thirds threshold draw on one deputy set.",
  "C07": " Also: undo/redo write only through the accessor setters of their journalling sibling, and copy-in setters re-initialise their destination before copying. Round 2: a constructed change log is pushed on every path to the raw write; the snapshot precedes the first journalled write of its step.",
- "C09": " Also: a node made to carry an existing node's account keeps that node's dye.",
- "C10": " Also: the list ranked at start-up is built only from candidates whose stored isCandidate flag is true.",
- "C11": " Also: the balance a vote transaction weighs is read before the transaction's gas purchase.",
+ "C09": " Also: a node made to carry an existing node's account keeps that node's dye. Round 2: the manager's mutable account never aliases a value cached in a view (Get returns copies or NewAccount copies); the pending-write index rules are evaluated here as well.",
+ "C10": " Also: the list ranked at start-up is built only from candidates whose stored isCandidate flag is true. Round 2: every list that becomes a published Top has the provenance of the total order (ranking result, published Top, order-preserving filter/prefix, empty), interprocedurally; no account Put of Save runs after the ranking; needMerge(VotesLog) by partial evaluation.",
+ "C11": " Also: the balance a vote transaction weighs is read before the transaction's gas purchase. Round 2: outside the journal every SetVotes is relative to GetVotes of the same account or one of three listed absolute writes.",
  "C13": " Also: miner and verifier read the deputy set of parent height + 1 for round length and rotation and consult the parent's miner only outside the height-1 / first-block-of-term case (input agreement, not arithmetic).",
  "C14": " Also: no fast path to success around the fetch the canonical test inspects; custom decoders fill no field from a sibling field.",
  "C15": " Also (C15.8): every sub transaction of a decoded box is non-nil when GetBox succeeds and every reader gets its box from GetBox; results of network functions with a `return nil` path are nil-tested by every caller before use. Round 2: the crash-site inventory has a per-(package, kind) budget for sites that move inside their package.",
